@@ -7,3 +7,8 @@ import SuppModel.Props.C14
 #print axioms SuppModel.Props.C14.C14_prefix
 #print axioms SuppModel.Props.C14.C14_range
 #print axioms SuppModel.Props.C14.C14_loads_range
+#print axioms SuppModel.Props.C14.C14_minimal
+#print axioms SuppModel.Props.C14.C14_minimal_nofloat
+#print axioms SuppModel.Props.C14.C14_loads_errors
+#print axioms SuppModel.Props.C14.C14_loads_no_logic
+#print axioms SuppModel.Props.C14.C14_dumps_errors
